@@ -916,6 +916,124 @@ def apply_mutation(B, m):
             x.name = m["name"]
         else:
             del x[".NAME"]
+    elif op == "permute":
+        # reorder through the public list setters (pins / wires / wire pins / ports / cables / children /
+        # definitions / libraries)
+        what, perm = m["what"], m["perm"]
+        if what == "libraries":
+            B.libraries = [B.libraries[i] for i in perm]
+        elif what == "definitions":
+            lib = B.libraries[m["lib"]]
+            lib.definitions = [lib.definitions[i] for i in perm]
+        elif what in ("ports", "cables", "children"):
+            d = D()
+            lst = list(getattr(d, what))
+            setattr(d, what, [lst[i] for i in perm])
+        elif what == "pins":
+            pt = D().ports[m["port"]]
+            lst = list(pt.pins)
+            pt.pins = [lst[i] for i in perm]
+        elif what == "wires":
+            cb = D().cables[m["cable"]]
+            lst = list(cb.wires)
+            cb.wires = [lst[i] for i in perm]
+        elif what == "wire_pins":
+            w = D().cables[m["cable"]].wires[m["wire"]]
+            lst = list(w.pins)
+            w.pins = [lst[i] for i in perm]
+        else:
+            raise ValueError("permute " + what)
+    elif op == "bulk_remove":
+        what, idx = m["what"], m["idx"]
+        if what == "libraries":
+            B.remove_libraries_from([B.libraries[i] for i in idx])
+        elif what == "definitions":
+            lib = B.libraries[m["lib"]]
+            ds = [lib.definitions[i] for i in idx]
+            for d in ds:
+                for k in list(d.children):
+                    for q in list(k.pins):
+                        if q.wire is not None:
+                            q.wire.disconnect_pin(q)
+                d.remove_children_from(list(d.children))
+            for d in ds:
+                pass
+            lib.remove_definitions_from(ds)
+        elif what == "ports":
+            d = D()
+            ps = [d.ports[i] for i in idx]
+            for pt in ps:
+                for q in pt.pins:
+                    if q.wire is not None:
+                        q.wire.disconnect_pin(q)
+            d.remove_ports_from(ps)
+        elif what == "cables":
+            d = D()
+            cs = [d.cables[i] for i in idx]
+            for cb in cs:
+                for w in cb.wires:
+                    w.disconnect_pins_from(list(w.pins))
+            d.remove_cables_from(cs)
+        elif what == "children":
+            d = D()
+            ks = [d.children[i] for i in idx]
+            for k in ks:
+                for q in list(k.pins):
+                    if q.wire is not None:
+                        q.wire.disconnect_pin(q)
+            d.remove_children_from(ks)
+            for k in ks:
+                k.reference = None
+        elif what == "pins":
+            pt = D().ports[m["port"]]
+            qs = [pt.pins[i] for i in idx]
+            for q in qs:
+                if q.wire is not None:
+                    q.wire.disconnect_pin(q)
+            pt.remove_pins_from(qs)
+        elif what == "wires":
+            cb = D().cables[m["cable"]]
+            ws = [cb.wires[i] for i in idx]
+            for w in ws:
+                w.disconnect_pins_from(list(w.pins))
+            cb.remove_wires_from(ws)
+        elif what == "wire_pins":
+            w = D().cables[m["cable"]].wires[m["wire"]]
+            w.disconnect_pins_from([w.pins[i] for i in idx])
+        else:
+            raise ValueError("bulk_remove " + what)
+    elif op == "insert_at":
+        # add_* with an explicit position
+        what, pos = m["what"], m["pos"]
+        if what == "library":
+            lib = sdn.Library()
+            lib.name = m["name"]
+            B.add_library(lib, position=pos)
+        elif what == "definition":
+            d = sdn.Definition()
+            d.name = m["name"]
+            B.libraries[m["lib"]].add_definition(d, position=pos)
+        elif what == "port":
+            pt = sdn.Port()
+            pt.name = m["name"]
+            pt.create_pins(1)
+            D().add_port(pt, position=pos)
+        elif what == "cable":
+            cb = sdn.Cable()
+            cb.name = m["name"]
+            cb.create_wires(1)
+            D().add_cable(cb, position=pos)
+        elif what == "child":
+            k = sdn.Instance()
+            k.name = m["name"]
+            k.reference = B.libraries[m["ref"][0]].definitions[m["ref"][1]]
+            D().add_child(k, position=pos)
+        elif what == "pin":
+            D().ports[m["port"]].add_pin(sdn.InnerPin(), position=pos)
+        elif what == "wire":
+            D().cables[m["cable"]].add_wire(sdn.Wire(), position=pos)
+        else:
+            raise ValueError("insert_at " + what)
     elif op == "reverse":
         what = m["what"]
         if what == "libraries":
@@ -961,6 +1079,88 @@ def apply_mutation(B, m):
         raise ValueError("unknown mutation " + op)
 
 
+def _perm(rng, n):
+    """a random non-identity permutation of range(n) (n >= 2)"""
+    while True:
+        p = list(range(n))
+        rng.shuffle(p)
+        if p != list(range(n)):
+            return p
+
+
+def enumerate_history_mutations(c, rng):
+    """Candidate steps of a compare -> mutate -> compare history: the single mutations of
+    `enumerate_mutations` plus every other public mutator family — the reorder setters (`pins`, `wires`,
+    wire `pins`, `ports`, `cables`, `children`, `definitions`, `libraries`), the bulk removers
+    (`remove_*_from`, `disconnect_pins_from`) and `add_*` with an explicit position."""
+    out = []
+    sites = [(li, di) for li, lib in enumerate(c["libraries"]) for di, _ in enumerate(lib["definitions"])]
+    rc = _refcounts(c)
+
+    def pick(lst, k=1):
+        lst = list(lst)
+        rng.shuffle(lst)
+        return lst[:k]
+    if len(c["libraries"]) > 1:
+        out.append({"op": "permute", "what": "libraries", "perm": _perm(rng, len(c["libraries"]))})
+    for li in pick([li for li, lib in enumerate(c["libraries"]) if len(lib["definitions"]) > 1]):
+        out.append({"op": "permute", "what": "definitions", "lib": li, "perm": _perm(rng, len(c["libraries"][li]["definitions"]))})
+    for what, key in (("ports", "ports"), ("cables", "cables"), ("children", "instances")):
+        for (li, di) in pick([s for s in sites if len(c["libraries"][s[0]]["definitions"][s[1]][key]) > 1]):
+            out.append({"op": "permute", "what": what, "lib": li, "def": di,
+                        "perm": _perm(rng, len(c["libraries"][li]["definitions"][di][key]))})
+    wideports, widecables, fatwires = [], [], []
+    for (li, di) in sites:
+        d = c["libraries"][li]["definitions"][di]
+        wideports += [(li, di, pi) for pi, p in enumerate(d["ports"]) if p["width"] > 1]
+        widecables += [(li, di, ci) for ci, cb in enumerate(d["cables"]) if len(cb["wires"]) > 1]
+        fatwires += [(li, di, ci, wi) for ci, cb in enumerate(d["cables"]) for wi, w in enumerate(cb["wires"]) if len(w) > 1]
+    for (li, di, pi) in pick(wideports, 3):
+        n = c["libraries"][li]["definitions"][di]["ports"][pi]["width"]
+        out.append({"op": "permute", "what": "pins", "lib": li, "def": di, "port": pi, "perm": _perm(rng, n)})
+        out.append({"op": "bulk_remove", "what": "pins", "lib": li, "def": di, "port": pi,
+                    "idx": sorted(rng.sample(range(n), rng.randint(1, n - 1)))})
+        out.append({"op": "insert_at", "what": "pin", "lib": li, "def": di, "port": pi, "pos": rng.randrange(n)})
+    for (li, di, ci) in pick(widecables, 2):
+        n = len(c["libraries"][li]["definitions"][di]["cables"][ci]["wires"])
+        out.append({"op": "permute", "what": "wires", "lib": li, "def": di, "cable": ci, "perm": _perm(rng, n)})
+        out.append({"op": "bulk_remove", "what": "wires", "lib": li, "def": di, "cable": ci,
+                    "idx": sorted(rng.sample(range(n), rng.randint(1, n - 1)))})
+        out.append({"op": "insert_at", "what": "wire", "lib": li, "def": di, "cable": ci, "pos": rng.randrange(n)})
+    for (li, di, ci, wi) in pick(fatwires, 2):
+        n = len(c["libraries"][li]["definitions"][di]["cables"][ci]["wires"][wi])
+        out.append({"op": "permute", "what": "wire_pins", "lib": li, "def": di, "cable": ci, "wire": wi, "perm": _perm(rng, n)})
+        out.append({"op": "bulk_remove", "what": "wire_pins", "lib": li, "def": di, "cable": ci, "wire": wi,
+                    "idx": sorted(rng.sample(range(n), rng.randint(1, n)))})
+    for what, key in (("ports", "ports"), ("cables", "cables"), ("children", "instances")):
+        for (li, di) in pick([s for s in sites if c["libraries"][s[0]]["definitions"][s[1]][key]]):
+            n = len(c["libraries"][li]["definitions"][di][key])
+            out.append({"op": "bulk_remove", "what": what, "lib": li, "def": di,
+                        "idx": sorted(rng.sample(range(n), rng.randint(1, min(2, n))))})
+    for li in pick(range(len(c["libraries"]))):
+        free = [di for di in range(len(c["libraries"][li]["definitions"])) if rc.get((li, di), 0) == 0]
+        if free:
+            out.append({"op": "bulk_remove", "what": "definitions", "lib": li, "idx": sorted(pick(free, 2))})
+    dl = [li for li, lib in enumerate(c["libraries"]) if all(rc.get((li, di), 0) == 0 for di in range(len(lib["definitions"])))]
+    if dl:
+        out.append({"op": "bulk_remove", "what": "libraries", "idx": sorted(pick(dl, 2))})
+    out.append({"op": "insert_at", "what": "library", "pos": 0, "name": _fresh([l["name"] for l in c["libraries"]], "hlib")})
+    for li in pick(range(len(c["libraries"]))):
+        out.append({"op": "insert_at", "what": "definition", "lib": li, "pos": 0,
+                    "name": _fresh([d["name"] for d in c["libraries"][li]["definitions"]], "hdef")})
+    for (li, di) in pick(sites, 2):
+        d = c["libraries"][li]["definitions"][di]
+        out.append({"op": "insert_at", "what": "port", "lib": li, "def": di, "pos": 0, "name": _fresh([x["name"] for x in d["ports"]], "hP")})
+        out.append({"op": "insert_at", "what": "cable", "lib": li, "def": di, "pos": 0, "name": _fresh([x["name"] for x in d["cables"]], "hN")})
+        leafs = [s2 for s2 in sites if not c["libraries"][s2[0]]["definitions"][s2[1]]["instances"] and s2 != (li, di)]
+        if leafs:
+            out.append({"op": "insert_at", "what": "child", "lib": li, "def": di, "pos": 0,
+                        "name": _fresh([x["name"] for x in d["instances"]], "hI"), "ref": list(rng.choice(leafs))})
+    # the single mutations of the statement (and the correspondence-only ones), one site per kind
+    out.extend(m for m in enumerate_mutations(c, rng, per_kind=1) if m["op"] not in ("drop_top",))
+    return out
+
+
 IN_STATEMENT = {"move_pin", "connect_free", "disconnect", "move_to_other_wire", "port_dir", "port_widen", "port_narrow", "port_array", "cable_widen", "cable_narrow",
                 "repoint", "repoint_top", "prop_change", "prop_dropkey", "prop_dropentry", "prop_dropall",
                 "prop_dropall_top", "add_library", "drop_library", "add_definition", "drop_definition", "add_port",
@@ -996,6 +1196,15 @@ def evaluate(x, drv, tmpdir):
                 B = make_copy(A, kind, tmpdir)
             for m in x.get("mut", []):
                 apply_mutation(B, m)
+            hist = x.get("history", [])
+            if hist:
+                # a history on the SAME pair of live netlists: the comparer runs before the first step and
+                # after every step (the comparer and the IR may remember things between calls)
+                run_comparer(A, B)
+                for k, st in enumerate(hist):
+                    apply_step(A, B, st)
+                    if k + 1 < len(hist):
+                        run_comparer(A, B)
         except _Timeout:
             r.status = "skip:timeout-building"
             return r
@@ -1003,22 +1212,41 @@ def evaluate(x, drv, tmpdir):
             r.status = "skip:build:" + type(e).__name__
             r.detail = str(e)[:200]
             return r
-        r.ca, r.cb = cnet(A), cnet(B)
-        if not (in_domain(r.ca) and in_domain(r.cb)):
-            r.status = "skip:not-expressible"
-            return r
-        r.wfB = not canon.wf_problems(B, limit=1)
-        r.unindexed = unindexed(B)
-        try:
-            r.impl, r.impl_cls = run_comparer(A, B)
-        except _Timeout:
-            r.status = "skip:timeout-comparer"
+        if not observe_impl(A, B, r):
             return r
     except _Timeout:            # a late tick between the inner handlers and the disarm
         r.status = "skip:timeout"
         return r
     finally:
         _disarm(old)
+    return observe_model(r, drv)
+
+
+def apply_step(A, B, st):
+    """One step of a history: a mutation of the original ("a"), of the copy ("b") or of both."""
+    if st["side"] in ("a", "both"):
+        apply_mutation(A, st["m"])
+    if st["side"] in ("b", "both"):
+        apply_mutation(B, st["m"])
+
+
+def observe_impl(A, B, r):
+    """Dump both live netlists and run the real comparer on them (timer must be armed by the caller)."""
+    r.ca, r.cb = cnet(A), cnet(B)
+    if not (in_domain(r.ca) and in_domain(r.cb)):
+        r.status = "skip:not-expressible"
+        return False
+    r.wfB = not canon.wf_problems(B, limit=1)
+    r.unindexed = unindexed(B)
+    try:
+        r.impl, r.impl_cls = run_comparer(A, B)
+    except _Timeout:
+        r.status = "skip:timeout-comparer"
+        return False
+    return True
+
+
+def observe_model(r, drv):
     ans = drv.ask({"fn": "compare", "a": r.ca, "b": r.cb})
     if "error" in ans:
         r.status = "skip:driver:" + ans["error"][:80]
@@ -1029,6 +1257,63 @@ def evaluate(x, drv, tmpdir):
     r.cats = [] if r.py_eq else view_diff(va, vb)
     r.faithful = strip(r.ca) == strip(r.cb)
     return r
+
+
+def run_history(ca, kind, rng, n_steps, drv, tmpdir, on_case):
+    """compare -> mutate -> compare -> ... on ONE pair of live netlists.  After every step the pair is
+    dumped afresh and judged like any other case (correspondence with the model on the current CNetlists,
+    and P: faithful => returns, examined differs => raises); the reported input is the history prefix,
+    which `evaluate` replays with the same interleaved comparisons."""
+    old = _arm(20)
+    try:
+        try:
+            A = build(ca)
+            B = make_copy(A, kind, tmpdir)
+        except _Timeout:
+            return
+        except Exception:
+            return
+        hist = []
+        pending = None
+        for k in range(n_steps + 1):
+            x = {"a": ca, "copy": kind, "history": list(hist)}
+            r = Case()
+            r.x, r.status, r.detail = x, "ok", ""
+            if not observe_impl(A, B, r):
+                on_case(r, k)
+                return
+            signal.setitimer(signal.ITIMER_VIRTUAL, 0, 0)
+            observe_model(r, drv)
+            on_case(r, k)
+            if r.status != "ok" or k == n_steps:
+                return
+            signal.setitimer(signal.ITIMER_VIRTUAL, 20, 0.2)
+            # next step: mutate the original, the copy, or (while the copy is faithful) both alike
+            # While the copy is faithful a mutation goes to one side (-> must be rejected) and is usually
+            # followed by the same mutation on the other side (-> faithful again, must be accepted), so that
+            # most comparisons of a history start from a state in which the previous one ran to the end.
+            u = rng.random()
+            if pending is not None and not r.faithful and u < 0.75:
+                st, pending = pending, None
+            else:
+                side = "both" if (r.faithful and u < 0.15) else ("a" if u < 0.55 else "b")
+                cur = r.cb if side == "b" else r.ca
+                ms = enumerate_history_mutations(cur, rng)
+                if not ms:
+                    return
+                st = {"side": side, "m": rng.choice(ms)}
+                pending = {"side": "b" if side == "a" else "a", "m": st["m"]} if (r.faithful and side != "both") else None
+            try:
+                apply_step(A, B, st)
+            except _Timeout:
+                return
+            except Exception:
+                return          # a refused mutation may leave the pair half-changed: end this history
+            hist.append(st)
+    except _Timeout:
+        return
+    finally:
+        _disarm(old)
 
 
 def judge(r, sink):
@@ -1072,7 +1357,7 @@ def judge(r, sink):
         else:
             sig = "Comparer.accepts_difference." + "+".join(r.cats)
         sink.spec_failure(sig, x, "examined views differ (%s) but compare() returned" % ",".join(r.cats))
-    if x.get("copy", "rebuild") == "rebuild" and not x.get("mut") and not r.faithful:
+    if x.get("copy", "rebuild") == "rebuild" and not x.get("mut") and not x.get("history") and not r.faithful:
         sink.corr_mismatch("harness: build(cnet(A)) does not reproduce the CNetlist of A", x, None, None)
     # every mutation taken from the statement's list must be visible in the examined view (otherwise the
     # case would test nothing): harness self-check
@@ -1139,13 +1424,27 @@ def shrink(x, sig, drv, tmpdir, budget=400):
         return sig in s.sigs
     # first try to turn it into a plain pair built through the API (replayable without the copy operation)
     r0 = evaluate(best, drv, tmpdir)
-    if r0.status == "ok" and best.get("copy") != "given":
+    if r0.status == "ok" and best.get("copy") != "given" and not best.get("history"):
         y = {"a": r0.ca, "copy": "given", "b": r0.cb}
         try:
             if fails(y):
                 best = y
         except Exception:
             pass
+    # histories: drop steps (from the front) while the signature reproduces
+    if best.get("history"):
+        k = 0
+        while k < len(best["history"]) and n < budget:
+            y = dict(best, history=best["history"][:k] + best["history"][k + 1:])
+            n += 1
+            try:
+                if fails(y):
+                    best = y
+                    continue
+            except Exception:
+                pass
+            k += 1
+        return best
     while changed and n < budget:
         changed = False
         for m in _drop_candidates(best["a"]):
@@ -1308,6 +1607,16 @@ def shard(seed, idx, n_netlists, deadline_s, tier):
     tmpdir = tempfile.mkdtemp(prefix="c20_")
     failures = {}     # signature -> smallest x
 
+    class _S:
+        def __init__(s):
+            s.sig = []
+
+        def corr_mismatch(s, *a, **k):
+            res.corr_mismatch(*a, **k)
+
+        def spec_failure(s, sg, xx, detail=""):
+            s.sig.append((sg, detail))
+
     def handle(x, tag):
         try:
             return handle_(x, tag)
@@ -1324,16 +1633,6 @@ def shard(seed, idx, n_netlists, deadline_s, tier):
                 res.dist("not-instantiable:" + tag.split(":")[0])
             return None
         _record(res, r, tag)
-
-        class _S:
-            def __init__(s):
-                s.sig = []
-
-            def corr_mismatch(s, *a, **k):
-                res.corr_mismatch(*a, **k)
-
-            def spec_failure(s, sg, xx, detail=""):
-                s.sig.append((sg, detail))
         s = _S()
         judge(r, s)
         for sg, detail in s.sig:
@@ -1400,6 +1699,34 @@ def shard(seed, idx, n_netlists, deadline_s, tier):
             for pre in odd:
                 for kind in ("rebuild",):
                     handle({"a": ca, "copy": kind, "pre": pre}, kind + ":odd-original:" + ("assignment-name" if pre[0]["what"] == "inst" else "wildcard-name"))
+            # 5. histories: compare -> mutate -> compare ... on the same live pair
+            def on_case(r, k):
+                if r.status != "ok":
+                    res.dist(":".join(r.status.split(":")[:2]))
+                    return
+                tag = "history:step%d" % min(k, 9)
+                if k:
+                    st = r.x["history"][-1]
+                    res.dist("history-op:%s%s:%s" % (st["m"]["op"], ("/" + st["m"]["what"]) if "what" in st["m"] else "", st["side"]))
+                _record(res, r, tag)
+                s_ = _S()
+                judge(r, s_)
+                for sg, detail in s_.sig:
+                    cur = failures.get(sg)
+                    size = len(json.dumps(r.x))
+                    if cur is None or size < cur[0]:
+                        failures[sg] = (size, r.x, detail)
+                    res.dist("P-failure:" + sg)
+            for kind in (["rebuild", "clone", "clone"] if tier == "quick" else ["rebuild", "clone", "rebuild", "clone", "clone"]):
+                try:
+                    run_history(ca, kind, rng, 8, drv, tmpdir, on_case)
+                except _Timeout:
+                    _disarm()
+            if single and rng.random() < 0.5:
+                try:
+                    run_history(ca, rng.choice(["edif", "verilog"]), rng, 4, drv, tmpdir, on_case)
+                except _Timeout:
+                    _disarm()
             # 4. unrelated pair (correspondence on heavily differing netlists)
             if rng.random() < 0.3:
                 _, other = gen_case_netlist(rng, shape)
@@ -1493,8 +1820,8 @@ def run(ctx):
     if ctx.tier == "thorough":
         L.leanchecker(ctx, MODULES)
     n_shards = ctx.scale(16, 32)
-    per = ctx.scale(8, 80)
-    deadline = ctx.scale(55, 540)
+    per = ctx.scale(6, 70)
+    deadline = ctx.scale(38, 540)
     args = [(ctx.seed, i, per, deadline, ctx.tier) for i in range(n_shards)]
     run_shards(ctx, shard, args)
     if ctx.corr and not ctx.spec:
